@@ -122,7 +122,14 @@ def run_batch(R, insts, oriented, zero, tag, deadline):
     results = pmap("c01", "impl_batch", cases, deadline=deadline)
     fixer = 0 if zero else 1
     lines = [gslib.lean_line(I, oriented, fixer) for I in insts]
-    answers = lean_query(lines)
+    # the faithful mirror of the branch (same state variables, CPython's heapq, same output ORDER): C01_gs*Mirror_refines.
+    # Large markets are skipped (the mirror is not tuned for them); the order of the returned pairs is not part of the property,
+    # so this comparison is model coverage (glue), while the pair SET against the proved model is the verdict above.
+    mlines = [gslib.mirror_line(I, oriented) if I["n"] <= 12 and I["m"] <= 12 else None for I in insts]
+    allans = lean_query(lines + [l for l in mlines if l is not None])
+    answers = allans[:len(lines)]
+    it_m = iter(allans[len(lines):])
+    mirror_ans = [next(it_m) if l is not None else None for l in mlines]
     k = 0
     for case, res in zip(cases, results):
         if "hang" in res or "exc" in res or "crash" in res:
@@ -134,6 +141,10 @@ def run_batch(R, insts, oriented, zero, tag, deadline):
             rs = res["results"]
         for I, r in zip(case["insts"], rs):
             judge(R, I, oriented, zero, r, answers[k], tag)
+            if mirror_ans[k] is not None and isinstance(r, dict) and "pairs" in r:
+                exp = " ".join(["ok", str(len(r["pairs"]))] + [str(x - fixer) for p in r["pairs"] for x in p])
+                R.glue("mirror:GaleShapley.scf ordered pair list (" + ("resident" if oriented else "hospital") + "-oriented)", exp == mirror_ans[k],
+                       {"instance": I, "real": r["pairs"], "model": mirror_ans[k]})
             k += 1
 
 
